@@ -62,8 +62,12 @@ CLAIMS = {
                     "permitted history: can_access = servable exactly as the property states, incl. write-after-own-read), "
                     "C19_no_failure, C19_maximal_history_empties, C19_histories_finite. Correspondence: all request sequences "
                     "up to length 4 (quick) / 6 (thorough) over 3 owners with ALL permitted removal interleavings, model, "
-                    "abstract spec and RegAccQBuilder/RegAccessQueue driven in lock-step + random longer histories.",
-            "note": PURE_NOTE, "technique": "Coq refinement proof + exhaustive state-space correspondence"},
+                    "abstract spec and RegAccQBuilder/RegAccessQueue driven in lock-step + random longer histories. "
+                    "Second tie (translator): harness/py2coq.py dumps the current reg_access.py into the PyLite embedding "
+                    "(coq/pylite) and coq/srcref/RegAccessRefine.v proves that the source refines the model method by method "
+                    "and that C19 holds of the source (C19_on_source); when the source leaves the translatable subset or the "
+                    "proof breaks the check falls back to the correspondence with an escalated budget.",
+            "note": PURE_NOTE, "technique": "Coq refinement proof (abstract spec <- model <- translated source) + exhaustive state-space correspondence"},
 }
 TEXT_NOTE = ("Trusted: Coq kernel; extraction (ExtrOcamlBasic only); the hand-written models coq/model/Program.v, Isa.v, "
              "Loader.v, Cli.v are tied to the Python source only by the differential correspondence run; harness glue; "
